@@ -37,6 +37,7 @@ func c16(r *Run) {
 	if ch.Chance(1, 12, "opt.port.zero") {
 		port = 0 // "announce on port 0": nothing sensible to send; whatever is sent must still say port 0
 	}
+	impliedWithPort := mode == 1 && port != 0 && ch.Chance(1, 2, "opt.implied.withport")
 	stopKind := ch.Pick([]int{5, 2, 2}, "stop.kind") // never, Close, StopTraversing
 	slowConsumer := ch.Chance(1, 4, "consumer.slow")
 	// the consumer stops reading for good after pauseAfter items, and the announce is
@@ -150,7 +151,8 @@ func c16(r *Run) {
 	var announces []*core.Write
 	stopCalledAt := time.Time{}
 	stopCalled := false
-	backlogAtStop := 0 // responses received but not yet read by the consumer when Close/StopTraversing was called
+	listed := map[string]NodeEnt{} // address -> first form in which an accepted reply listed it
+	backlogAtStop := 0             // responses received but not yet read by the consumer when Close/StopTraversing was called
 	r.Tap = func(wr *core.Write) bool {
 		if wr.D == nil {
 			return true
@@ -218,6 +220,24 @@ func c16(r *Run) {
 			return
 		}
 		vs, _ := rr.List("values")
+		if !atDeadline {
+			// contacts this accepted reply lists: the lookup has learned them
+			for _, f := range []struct {
+				key string
+				n   int
+			}{{"nodes", 4}, {"nodes6", 16}} {
+				if str, ok := rr.Str(f.key); ok {
+					if ents, ok := ParseNodes(str, f.n); ok {
+						for _, e := range ents {
+							k := e.AddrString()
+							if _, seen := listed[k]; !seen {
+								listed[k] = e
+							}
+						}
+					}
+				}
+			}
+		}
 		if _, isStr := tok.(string); isStr && tok != "" {
 			// reach probe: a token-bearing answer from a node farther than 8 token-bearing nodes heard before
 			closer := 0
@@ -244,7 +264,12 @@ func c16(r *Run) {
 	case 0, 3:
 		a, err = s.Announce(ih, port, false, opts...)
 	case 1:
-		a, err = s.Announce(ih, 0, true, opts...)
+		// implied port, alone or together with an explicit port (the flag must go out either way)
+		ip1 := 0
+		if impliedWithPort {
+			ip1 = port
+		}
+		a, err = s.Announce(ih, ip1, true, opts...)
 	case 2:
 		a, err = s.AnnounceTraversal(ih, opts...)
 	}
@@ -468,6 +493,42 @@ func c16(r *Run) {
 				return
 			}
 		}
+	}
+	// ---- the lookup itself (C03 at the level of a server's announce): when it ends on its own,
+	// every contact that an accepted reply listed has been asked, unless eight token-bearing
+	// answers at least as close were in hand. Judged generously: every string token counts
+	// towards the eight, replies that raced their time-out count for nothing.
+	if !stopCalled && !dupIDs {
+		var member [][20]byte
+		for _, rp := range resps {
+			if _, ok := rp.token.(string); ok {
+				member = append(member, rp.id)
+			}
+		}
+		sort.Slice(member, func(i, j int) bool { return XorCmp(member[i], member[j], ih) < 0 })
+		full := len(member) >= 8
+		var ks []string
+		for k := range listed {
+			ks = append(ks, k)
+		}
+		sort.Strings(ks)
+		for _, k := range ks {
+			e := listed[k]
+			if queriedGP[k] > 0 || e.Port == 0 || k == local.String() {
+				continue
+			}
+			if ip4 := e.IP.To4(); ip4 != nil && ip4[0] == 0 {
+				continue
+			}
+			if e.ID == s.ID() {
+				continue
+			}
+			if !full || XorCmp(e.ID, member[7], ih) < 0 {
+				r.Violate("listed-contact-never-queried", "the announce's lookup ended on its own although %s@%s, listed by an accepted reply and closer than the 8th closest token-bearing answer (answers: %d), was never sent a get_peers", hex8(e.ID[:]), k, len(member))
+				return
+			}
+		}
+		r.Probe("lookup-completeness-checked")
 	}
 	r.State(fmt.Sprintf("r%d a%d i%d", min(len(resps), 20), min(len(announces), 9), min(len(its), 20)))
 	if len(resps) >= 2 {
